@@ -171,7 +171,12 @@ theorem patch_comes_from_one_entry (s : Sys) (n : NodeObj) (refresh : Bool) (ws 
         · exact absurd rfl h
         · rename_i hne
           rw [if_neg hne]
-          exact ⟨al, cidrs, i, rfl, fun p hp' => C08.patches_are_for_the_node _ _ _ _ _ p hp'⟩
+          refine ⟨al, cidrs, i, rfl, ?_⟩
+          split
+          · split
+            · exact fun p hp' => C08.patches_are_for_the_node _ _ _ _ _ p hp'
+            · exact fun p hp' => C08.patches_are_for_the_node _ _ _ _ _ p hp'
+          · exact fun p hp' => C08.patches_are_for_the_node _ _ _ _ _ p hp'
 
 example : EntryBlocks ⟨"k", [], "a", some (Pool.new ⟨.v4, 0x0a000000, 24, 28⟩ "10.0.0.0/24"), none, [], false⟩
     [goBlock ⟨.v4, 0x0a000000, 24, 28⟩ 3] := ⟨3, by decide, rfl⟩
